@@ -1531,7 +1531,9 @@ def _encode_host(host: str, validate_host: bool) -> str:
         raise ValueError(
             f"Host {host!r} cannot contain {value!r} (at position {pos}){extra}"
         ) from None
-    return host
+    # A colon can only be left in a host that was written in brackets
+    # (IPvFuture); it needs them to be an unambiguous part of the netloc.
+    return f"[{host}]" if ":" in host else host
 
 
 @rewrite_module
